@@ -46,7 +46,7 @@ CHECKS = {
     "C08": dict(
         cat="fault_enumeration", ref="5/C08",
         technique="exhaustive fault enumeration: a failing DiffHook whose k-th call errors, for every k, through 9 adapter stacks on the real code; two-deviation part (deadline expiry x failing call); operation-sequence part (the same stack object handed to several diffs in a row)",
-        text="For every input in scope, every adapter stack and every call index k of the success run, the hook fails at call k; the diff must return exactly that error, make no further call, and have made exactly the prefix of the success run. Success runs are checked for a single, last finish and the default replace behaviour. Part 'reused-stack': every history of up to 1 (thorough: 2) successful earlier diffs through the SAME stack object, then every failing call index of the last diff.",
+        text="For every input in scope, every adapter stack and every call index k of the success run, the hook fails at call k; the diff must return exactly that error, make no further call, and have made exactly the prefix of the success run. Success runs are checked for a single, last finish and the default replace behaviour. Part 'reused-stack': every history of up to 1 (thorough: 2) successful earlier diffs through the SAME stack object, then every failing call index of the last diff. Part 'thread-exit': the whole protocol from the Drop of a thread-local value while its thread exits.",
         note="Trusted: the harness's recording hooks."),
     "C09": dict(
         cat="exploration", ref="5/C09",
@@ -56,7 +56,7 @@ CHECKS = {
     "C10": dict(
         cat="model_checking", ref="5/C10",
         technique="explicit-state generation of every valid edit script (all paths of the (o,n) edit lattice with equal/delete/insert edges of every length) replayed against the real Compact/Replace adapters",
-        text="For every pair in scope every valid script — any order, any segmentation — is generated by an explicit-state walk of the edit lattice and replayed through Replace, Compact and Compact<Replace> into Capture, composed by value and by reference (8 compositions); outputs are validated as scripts of equal cost, normal form and exact indices as stated.",
+        text="For every pair in scope every valid script — any order, any segmentation — is generated by an explicit-state walk of the edit lattice and replayed through Replace, Compact and Compact<Replace> into Capture, composed by value and by reference (8 compositions); outputs are validated as scripts of equal cost, normal form and exact indices as stated. A second script space uses an item equality that is a many-to-many relation (a wildcard item), legal under the PartialEq bounds.",
         note="Trusted: script generator (the model) and C02/C09 automata; traces are replayed 1:1 on the implementation, there is no abstraction gap."),
     "C11": dict(
         cat="exploration", ref="5/C11",
